@@ -70,6 +70,10 @@ pub struct Case {
     /// the id counter is positioned here before the first operation (ids with 1-4 content octets)
     #[serde(default)]
     pub start_id: i32,
+    /// before operation i is issued the id counter is moved back by rewinds[i] (as after a wrap-around),
+    /// so that ids of completed operations are handed out again while others are outstanding
+    #[serde(default)]
+    pub rewinds: Vec<u8>,
 }
 
 pub fn start_id() -> BoxedStrategy<i32> {
@@ -104,8 +108,15 @@ fn strat(_: &Ctx) -> BoxedStrategy<Case> {
             .prop_map(|(before, kind)| Unsol { before, kind }),
         0..=4,
     );
-    (vec(op, 1..=12), vec(any::<u16>(), 100), vec(any::<bool>(), 1..6), unsol, chunk_plan(), any::<u64>(), start_id())
-        .prop_map(|(ops, ranks, glue, unsol, (chunks, yields), sched, start_id)| Case { ops, ranks, glue, unsol, chunks, yields, sched, start_id })
+    (vec(op, 1..=12), vec(any::<u16>(), 100), vec(any::<bool>(), 1..6), unsol, chunk_plan(), any::<u64>(), start_id(), prop_oneof![2 => Just(vec![]), 1 => vec(prop_oneof![2 => Just(0u8), 1 => 1u8..8], 12)])
+        .prop_map(|(ops, ranks, glue, unsol, (chunks, yields), sched, start_id, rewinds)| {
+            // a stream dropped without finish() releases its id while the server may still send items under
+            // it; re-using that id is then ambiguous by protocol, so such cases keep the counter monotonic
+            // (the same holds for a server that sends one more PDU under the id of a completed operation)
+            let ambiguous = ops.iter().any(|o: &OpSpec| matches!(o.kind, OpKind::SearchDropped(..))) || unsol.iter().any(|u: &Unsol| matches!(u.kind, UnsolKind::LateResult | UnsolKind::LateEntry));
+            let rewinds = if ambiguous { vec![] } else { rewinds };
+            Case { ops, ranks, glue, unsol, chunks, yields, sched, start_id, rewinds }
+        })
         .boxed()
 }
 
@@ -352,9 +363,15 @@ pub fn check(case: &Case, obs: &mut Obs) -> Result<(), Fail> {
         for (_, idxs) in by_handle {
             let mut ldap = conn.ldap.clone();
             let ops = c.ops.clone();
+            let rewinds = c.rewinds.clone();
+            let mm = conn.msgmap.clone();
             tasks.push(tokio::spawn(async move {
                 let mut res = Vec::new();
                 for i in idxs {
+                    if let Some(k) = rewinds.get(i).copied().filter(|k| *k > 0) {
+                        let mut m = mm.lock().unwrap();
+                        m.0 = (m.0 - k as i32).max(0);
+                    }
                     let h = {
                         let mut l2 = ldap.clone();
                         let spec = ops[i].clone();
@@ -476,6 +493,9 @@ pub fn check(case: &Case, obs: &mut Obs) -> Result<(), Fail> {
     }
     if case.chunks == vec![1] {
         obs.label("1-byte-reads");
+    }
+    if case.rewinds.iter().take(case.ops.len()).any(|k| *k > 0) {
+        obs.label("id-counter-rewound");
     }
     if case.start_id >= 127 {
         obs.label("multi-octet-message-ids");
